@@ -144,8 +144,8 @@ func (i *interpreter) transfer(next *thread) {
 // yield is a scheduling point at a visible operation of a runnable thread.
 func (i *interpreter) yield(_ bool) bool {
 	s := i.sched
-	if s == nil || len(s.threads) == 1 {
-		return false
+	if s == nil || len(s.threads) == 1 || i.initDepth > 0 {
+		return false // package initialisation (run lazily by whichever goroutine gets there first) is atomic
 	}
 	en := s.enabled()
 	if len(en) == 0 {
